@@ -431,7 +431,9 @@ def closeTransportF : Nat → World → Nat → Bool → World
   | _ + 1, w, sid, discard =>
     let ti := (w.sock sid).tr
     let w := if discard then w.setTr ti fun t => { t with discarded := true } else w
-    trClose w ti (some sid)
+    -- an orderly close already buffered on the transport: discarding does not wait for it
+    if discard ∧ (w.tr ti).rs = .closing then sockOnClose closeFuel w sid "forced_close"
+    else trClose w ti (some sid)
 end
 
 def flush (w : World) (sid : Nat) : World := flushF 4 w sid
@@ -859,7 +861,7 @@ def fireTimer (w : World) : TimerId → World
   | .closeTimer ti =>
     let w := w.setTr ti fun t => { t with closeTimerDue := none }
     if (w.tr ti).isPolling then
-      let w := w.setTr ti fun t => { t with shouldClose := false }
+      -- (the buffered orderly close stays armed: a payload written later still carries the close packet)
       pollOnClose (runCloseFn w ti) ti
     else wsCloseNow w ti
   | .upgradeTimeout sid =>
